@@ -1290,7 +1290,9 @@ pub fn run_c09(args: &Args, seed: u64, tier: &str, report: &Report) -> String {
                     }
                 }
             };
-            let t = Triple { fen, moves, depth, hash_mb: *rng.pick(&[1usize, 2, 16]), warm };
+            // (hash size 0 as well: with no table there is never a hash move, which is when searches fall back on
+            // whatever they do without one)
+            let t = Triple { fen, moves, depth, hash_mb: *rng.pick(&[0usize, 1, 2, 16]), warm };
             let before = l.features.get("triples_enumerated").copied().unwrap_or(0);
             let ev_before = l.evaluations;
             let r = enumerate_stops(&t, None, &mut l, max_polls);
